@@ -429,9 +429,9 @@ class Prop:
         F = IPV4
         LID = 0x01000001
         lcap = [('mp', F), ('mp', IPV6), ('addpath', [(F, 3)]), ('as4', 65000), ('extmsg',), ('gr', 4, 120, [(F, 0)]), ('llgr', [(F, 0, 60)])]
-        def add(cls, frame, exp=0, lhold=90, l=lcap):
+        def add(cls, frame, exp=0, lhold=90, l=lcap, peer_as=None):
             fr = frame.d if hasattr(frame, 'd') else list(frame)
-            out.append(dict(kind='open', lid=LID, l=list(l), lhold=lhold, exp=exp, frame=fr, fams=sorted(FAMS), cls=cls))
+            out.append(dict(kind='open', lid=LID, l=list(l), lhold=lhold, exp=exp, frame=fr, fams=sorted(FAMS), cls=cls, peer_as=peer_as))
         caps = {'mp': E.cap_mp(F), 'mp6': E.cap_mp(IPV6), 'addpath': E.cap_addpath([(F, 3)]), 'as4': E.cap_as4(65001), 'extmsg': E.cap_extmsg(),
                 'gr': E.cap_gr(4, 90, [(F, 128)]), 'llgr': E.cap_llgr([(F, 0, 30)]), 'rr': E.cap_rr(), 'err': E.cap_err(),
                 'enh': E.cap_extnh([(F, 2)]), 'fqdn': E.cap_fqdn([104, 111], [100])}
@@ -474,7 +474,11 @@ class Prop:
         for asn, as4 in ((65001, None), (65001, 65001), (23456, 65001), (23456, 70000), (23456, None), (65001, 70000), (23456, 23456), (0, None), (65535, 65535)):
             for exp in (0, 65001, 70000, 23456):
                 cl = [caps['mp']] + ([E.cap_as4(as4)] if as4 is not None else [])
-                add('wire_as_forms', msg(cl, asn=asn), exp=exp)
+                # the AS the peer is in: the 4-octet capability when My-AS is AS_TRANS (RFC 6793), else the My-AS field;
+                # left open when the two contradict each other
+                # (AS_TRANS without the capability is not a legitimate AS either: the code records AS 0 there)
+                peer_as = as4 if (asn == 23456 and as4 is not None) else (asn if as4 in (None, asn) and asn != 23456 else None)
+                add('wire_as_forms', msg(cl, asn=asn), exp=exp, peer_as=peer_as)
         # hold times on either side
         for hold in (0, 1, 2, 3, 4, 65535):
             for lhold in (0, 1, 2, 3, 90, 65535, 65536):
@@ -830,6 +834,8 @@ class Prop:
             return None          # rejected by the codec: the decoder's verdict is property C03's
         _, asn, hold, rid, rcaps, state, outs, neg, grs = obs
         # expected AS: the session goes on only with the configured AS (0 = any), else Bad Peer AS
+        if c.get('peer_as') is not None and asn != c['peer_as']:
+            return 'the peer is in AS %d (My-AS field / 4-octet AS capability), the session records AS %d' % (c['peer_as'], asn)
         ok_as = c['exp'] == 0 or c['exp'] == asn
         downs = [o for o in outs if o[2][0] == 5]
         if ok_as and (state != 4 or downs): return 'OPEN from the expected AS %d did not lead to OpenConfirm' % asn
